@@ -163,6 +163,16 @@ func StdProbes() []corev1alpha1.ObjectSetProbe {
 	}}
 }
 
+// CELProbes is the standard availability probe written as a CEL rule with an EMPTY failure message (valid per CRD).
+func CELProbes() []corev1alpha1.ObjectSetProbe {
+	return []corev1alpha1.ObjectSetProbe{{
+		Selector: corev1alpha1.ProbeSelector{Kind: &corev1alpha1.PackageProbeKindSpec{Group: gvkWidget.Group, Kind: gvkWidget.Kind}},
+		Probes: []corev1alpha1.Probe{{CEL: &corev1alpha1.ProbeCELSpec{
+			Rule:    `has(self.status) && has(self.status.conditions) && self.status.conditions.exists(c, c.type == "Available" && c.status == "True")`,
+			Message: ""}}},
+	}}
+}
+
 func TemplateSpec(phases []PhaseSpec) corev1alpha1.ObjectSetTemplateSpec {
 	return corev1alpha1.ObjectSetTemplateSpec{Phases: toPhases(phases), AvailabilityProbes: StdProbes()}
 }
